@@ -53,6 +53,19 @@ static void lwe_round_trips(int n, const std::vector<long>& Ms, VhRng& rng, int 
             emit_lwe("ltriv", n, (int)M, 0, -1, x, c, key, 0);
         }
     }
+    // calls with very different noise levels back to back (single draws, so the parity of Gaussian draws varies):
+    // a sample requested with a small alpha right after one with a large alpha must still carry the small noise
+    {
+        long smallM[3] = {2, 3, 4}, bigM[3] = {1000, 1024, 32768};
+        for (int q = 0; q < 8 * per; q++) {
+            long Ma = smallM[q % 3], Mb = bigM[(q / 3) % 3];
+            int ma = (int)rng.below((uint32_t)Ma), mb = (int)rng.below((uint32_t)Mb);
+            Torus32 mua = modSwitchToTorus32(ma, (int32_t)Ma), mub = modSwitchToTorus32(mb, (int32_t)Mb);
+            lweSymEncrypt(c, mua, 1.0 / (20.0 * Ma), key); emit_lwe("lenc", n, (int)Ma, ma, 4, (uint32_t)mua, c, key, 0);
+            if (q % 2) { lweSymEncrypt(c, mua, 1.0 / (20.0 * Ma), key); emit_lwe("lenc", n, (int)Ma, ma, 4, (uint32_t)mua, c, key, 0); }
+            lweSymEncrypt(c, mub, 1.0 / (20.0 * Mb), key); emit_lwe("lenc", n, (int)Mb, mb, 5, (uint32_t)mub, c, key, 0);
+        }
+    }
     delete_LweSample(c); delete_LweKey(key); delete_LweParams(par);
 }
 static void gate_bits(int lambda, int reps) {
